@@ -38,10 +38,16 @@ def history_lines(ex, label):
     return out
 
 
-def run_mb(ck, clauses, box_clauses=(), conc=()):
+def run_mb(ck, clauses, box_clauses=(), conc=(), gate=()):
     """clauses: propfail clause names that belong to the property"""
     ck.coq()
     if not ck.build_harness("backend"):
+        return
+    if ck.replay and gate and any(l.startswith("gate ") for l in open(ck.replay).read().splitlines()):
+        # a witness of the gated families: re-run those scenarios only
+        run_gate(ck, gate, extra=["-replay", ck.replay])
+        ck.evaluations = ck.extra.get("gated_scenarios", 0)
+        ck.rule = GATE_RULE
         return
     extra = ["-replay", ck.replay] if ck.replay else []
     path, _ = ck.harness("mb", extra=extra, timeout=3000)
@@ -68,6 +74,49 @@ def run_mb(ck, clauses, box_clauses=(), conc=()):
         run_box(ck, box_clauses)
     if conc and not ck.replay:
         run_conc(ck, conc)
+    if gate and not ck.replay:
+        run_gate(ck, gate)
+        ck.rule += "; " + GATE_RULE
+
+
+GATE_RULE = ("gated interleavings (backend mbgate): from inside the acknowledgement callback of a Subscribe another client's retained publishes "
+             "(replace / delete / set / delete-and-set / two replacements / set-and-delete / same payload again; QoS rotating) are started and "
+             "the subscribing call is kept in the callback until they have returned or are parked at the backend's lock; temporary, stored "
+             "and clean sessions, first filter subscribed before or not, 6 filter sets (overlapping, non-matching): the subscriber's queues must "
+             "equal, as a multiset of (retain flag, payload), the outcome of the subscription taking effect at some position among the "
+             "publishes (subscribe_atomic); watchdog gate_completes")
+
+
+def run_gate(ck, clauses, extra=()):
+    """`backend mbgate`: direct clauses on the real backend (`direct <clause> <n> ok|FAIL …`), scenario lines `gate <n> …`"""
+    if not ck.harness_bin:
+        return
+    path, out = ck.harness("mbgate", out_name="mbgate.txt", extra=list(extra), timeout=1500)
+    ex = open(path).read().splitlines() if os.path.exists(path) else []
+    scn = {}
+    n = 0
+    for l in ex:
+        f = l.split()
+        if len(f) >= 2 and f[0] == "gate":
+            scn[f[1]] = l
+        elif len(f) >= 4 and f[0] == "direct":
+            n += 1
+            if f[3] == "FAIL" and f[1] in clauses:
+                ck.fail_input(f[1], l, [scn.get(f[2], "")] + [l])
+    ck.extra["gated_scenarios"] = len(scn)
+    ck.evaluations += n
+
+
+def will_steps(ex):
+    """labels <hist>/<case> of the steps the harness marked as will publications (`will <n>` lines: a Publish by a connection that
+    was closing when the call was made)"""
+    out, h = set(), None
+    for l in ex:
+        if l.startswith("hist "):
+            h = l.split()[1]
+        elif l.startswith("will ") and h is not None:
+            out.add("%s/%s" % (h, l.split()[1]))
+    return out
 
 
 def run_conc(ck, kinds):
